@@ -351,7 +351,8 @@ Definition classes (md : mode) (root : selset) (ranks : list nat) (pre : list bo
   let nested := v_exists (fun _ => false)
                          (fun f => match f with FP (Some _) _ (Some v) => has_async_v v | _ => false end) rv in
   (if has_async_v rv then ["async"] else ["sync-only"]) ++
-  (if existsb (fun b => b) pre then ["prefilled-promise"] else []) ++ feat ++
+  (if v_exists (fun _ => false) (fun f => match f with FP (Some t) _ _ => tag_prefilled t | _ => false end) rv
+   then ["prefilled-promise"] else []) ++ feat ++
   (match md with Mutation => ["mutation"] | Query => [] end) ++
   (if split then ["split-rounds"] else []) ++
   (if fail_nn then ["promise-fails-under-nonnull"] else []) ++
@@ -384,8 +385,7 @@ Definition check_case (c : tcase) : sexp :=
       let fuel := S (count_async root) in
       let jfuel := S (S (vsize (VObj root))) in
       let pre := c_pre c in
-      let fl := with_prefill fixed_flags (fun t => nth (N.to_nat t) pre false) in
-      match run fl (sigma_ranks (c_ranks c)) (c_mode c) fuel jfuel root with
+      match run fixed_flags (sigma_ranks (c_ranks c)) (c_mode c) fuel jfuel root with
       | Done r =>
           if negb (data_eqb (r_data r) (o_data o)) then v_mismatch "data" []
           else if negb (paths_perm (map e_path (r_errors r)) (map fst (o_errors o))) then
